@@ -131,8 +131,13 @@ class Horizon(BaseException):
     """Raised by a Chooser when the horizon of answers is exhausted."""
 
 
+class StopExploration(Exception):
+    """Raised by an on_run callback: the verdict for this instance is settled, do not explore further answer sequences."""
+
+
 @dataclass
 class DfsStats:
+    stopped: bool = False
     runs: int = 0
     choice_points: int = 0
     max_points: int = 0
@@ -169,7 +174,11 @@ def dfs_answers(run: Callable[[Chooser], Any], on_run: Callable[[Chooser, Any], 
         st.runs += 1
         st.choice_points += len(ch.points) - len(prefix)
         st.max_points = max(st.max_points, len(ch.points))
-        on_run(ch, obs)
+        try:
+            on_run(ch, obs)
+        except StopExploration:
+            st.stopped = True
+            break
         devs = sum(1 for c in ch.choices[:len(prefix)] if c != 0)
         for i in range(len(ch.points) - 1, len(prefix) - 1, -1):
             if bound_deviations is not None and devs + 1 > bound_deviations:
